@@ -1,23 +1,147 @@
 (** C14 — Scott, Parigot, Stump-Fu and binary numerals compute and inter-convert correctly.
-    Soundness for all arguments (if a normalising order returns, it returns the normal form) and NOR
-    completeness are C13_sound / C13_nor_finds; here: the BOUNDED in-kernel grid on the generated
-    constants (bounds in the statement: numbers <= 5, binary <= 20, multiplications <= 2). *)
-From LC Require Import Spec.Encodings Model.Reduction Gen.Terms Proofs.Grids.
 
+    On the GENERATED constants of src/data/num/{scott,parigot,stumpfu,binary,church}.rs:
+    (1) for ALL m, n: every exported operation and every conversion, applied to the encodings of its
+        arguments, reduces to the encoding of the expected result (binary: to the stripped encoding
+        where the crate's documentation allows leading zeroes - pred and shl0; the bit-string level
+        theorems cover inputs WITH leading zeroes too);
+    (2) hence (C07) reduce with NOR or HNO and limit 0 returns exactly that encoding, for all m, n,
+        and (C06) whatever APP or HAP return, if they return, is that encoding;
+    (3) termination of HAP / APP where documented as suitable is proved only on a grid whose bound is
+        in the statement, by in-kernel evaluation of the model of reduce. *)
+From LC Require Import Spec.Encodings Spec.Confluence Spec.NorEval Model.Reduction Gen.Terms
+  Proofs.Sound Proofs.ReduceProps Proofs.Normalise Proofs.Convert Proofs.Grids
+  Proofs.ScottArith Proofs.ParigotArith Proofs.StumpFuArith Proofs.BinaryArith.
+
+Theorem C14_scott : forall m n,
+  red (App lc_num_scott_succ (scott n)) (scott (S n)) /\
+  red (App lc_num_scott_pred (scott n)) (scott (pred n)) /\
+  red (App lc_num_scott_is_zero (scott n)) (bool_t (n =? 0)) /\
+  red (App (App lc_num_scott_add (scott m)) (scott n)) (scott (m + n)) /\
+  red (App (App lc_num_scott_mul (scott m)) (scott n)) (scott (m * n)) /\
+  red (App (App lc_num_scott_pow (scott m)) (scott n)) (scott (m ^ n)).
+Proof.
+  intros m n. repeat split.
+  - apply scott_succ. - apply scott_pred. - apply scott_is_zero.
+  - apply scott_add. - apply scott_mul. - apply scott_pow.
+Qed.
+
+Theorem C14_parigot : forall m n,
+  red (App lc_num_parigot_succ (parigot n)) (parigot (S n)) /\
+  red (App lc_num_parigot_pred (parigot n)) (parigot (pred n)) /\
+  red (App lc_num_parigot_is_zero (parigot n)) (bool_t (n =? 0)) /\
+  red (App (App lc_num_parigot_add (parigot m)) (parigot n)) (parigot (m + n)) /\
+  red (App (App lc_num_parigot_sub (parigot m)) (parigot n)) (parigot (m - n)) /\
+  red (App (App lc_num_parigot_mul (parigot m)) (parigot n)) (parigot (m * n)).
+Proof.
+  intros m n. repeat split.
+  - apply parigot_succ. - apply parigot_pred. - apply parigot_is_zero.
+  - apply parigot_add. - apply parigot_sub. - apply parigot_mul.
+Qed.
+
+Theorem C14_stumpfu : forall m n,
+  red (App lc_num_stumpfu_succ (stumpfu n)) (stumpfu (S n)) /\
+  red (App lc_num_stumpfu_pred (stumpfu n)) (stumpfu (pred n)) /\
+  red (App lc_num_stumpfu_is_zero (stumpfu n)) (bool_t (n =? 0)) /\
+  red (App (App lc_num_stumpfu_add (stumpfu m)) (stumpfu n)) (stumpfu (m + n)) /\
+  red (App (App lc_num_stumpfu_mul (stumpfu m)) (stumpfu n)) (stumpfu (m * n)).
+Proof.
+  intros m n. repeat split.
+  - apply stumpfu_succ. - apply stumpfu_pred. - apply stumpfu_is_zero.
+  - apply stumpfu_add. - apply stumpfu_mul.
+Qed.
+
+(** binary, on numbers *)
+Theorem C14_binary : forall n,
+  red (App lc_num_binary_succ (binary n)) (binary (S n)) /\
+  red (App lc_num_binary_strip (App lc_num_binary_pred (binary n))) (binary (pred n)) /\
+  red (App lc_num_binary_strip (App lc_num_binary_shl0 (binary n))) (binary (2 * n)) /\
+  (0 < n -> red (App lc_num_binary_shl0 (binary n)) (binary (2 * n))) /\
+  red (App lc_num_binary_shl1 (binary n)) (binary (2 * n + 1)) /\
+  red (App lc_num_binary_lsb (binary n)) (bool_t (Nat.even n)) /\
+  red (App lc_num_binary_is_zero (binary n)) (bool_t (n =? 0)) /\
+  red (App lc_num_binary_strip (binary n)) (binary n).
+Proof.
+  intros n. repeat split.
+  - apply binary_succ. - apply binary_pred. - apply binary_shl0_num. - apply binary_shl0_pos.
+  - apply binary_shl1_num. - apply binary_lsb_num. - apply binary_is_zero_num.
+  - destruct (bits_canon n) as [C V]. pose proof (binary_strip (bits_of n n)) as H. rewrite V in H. exact H.
+Qed.
+
+(** binary, on arbitrary bit strings (least significant first, leading zeroes allowed) *)
+Theorem C14_binary_bits : forall bs,
+  red (App lc_num_binary_strip (bnum bs)) (binary (bval bs)) /\
+  red (App lc_num_binary_is_zero (bnum bs)) (bool_t (bval bs =? 0)) /\
+  red (App lc_num_binary_shl0 (bnum bs)) (bnum (false :: bs)) /\
+  red (App lc_num_binary_shl1 (bnum bs)) (bnum (true :: bs)) /\
+  red (App lc_num_binary_succ (bnum bs)) (bnum (inc bs)) /\ bval (inc bs) = S (bval bs) /\
+  red (App lc_num_binary_pred (bnum bs)) (bnum (dec bs)) /\ (canonb bs = true -> bval (dec bs) = pred (bval bs)).
+Proof.
+  intros bs. repeat split.
+  - apply binary_strip. - apply binary_is_zero. - apply binary_shl0. - apply binary_shl1.
+  - apply binary_succ_bits. - apply inc_val. - apply binary_pred_bits. - apply dec_val.
+Qed.
+
+Theorem C14_conversions : forall n,
+  red (App lc_num_church_to_scott (church n)) (scott n) /\
+  red (App lc_num_church_to_parigot (church n)) (parigot n) /\
+  red (App lc_num_church_to_stumpfu (church n)) (stumpfu n) /\
+  red (App lc_num_scott_to_church (scott n)) (church n) /\
+  red (App lc_num_stumpfu_to_church (stumpfu n)) (church n) /\
+  red (App lc_num_stumpfu_to_scott (stumpfu n)) (scott n) /\
+  red (App lc_num_stumpfu_to_parigot (stumpfu n)) (parigot n).
+Proof.
+  intros n. repeat split.
+  - apply church_to_scott. - apply church_to_parigot. - apply church_to_stumpfu. - apply scott_to_church.
+  - apply stumpfu_to_church. - apply stumpfu_to_scott. - apply stumpfu_to_parigot.
+Qed.
+
+(** the encodings are normal forms, so "reduces to" determines what the reducer returns *)
+Theorem C14_encodings_normal : forall n,
+  nfb (scott n) = true /\ nfb (parigot n) = true /\ nfb (stumpfu n) = true /\ nfb (binary n) = true /\ nfb (church n) = true.
+Proof. intros n. repeat split; [apply scott_nf|apply parigot_nf|apply stumpfu_nf|apply binary_nf|apply church_nf]. Qed.
+
+Theorem C14_nor_returns : forall t v, red t v -> nfb v = true -> exists fuel c, reduce_m fuel NOR 0 t = Some (v, c).
+Proof. exact nor_normalises. Qed.
+Theorem C14_hno_returns : forall t v, red t v -> nfb v = true -> exists fuel c, reduce_m fuel HNO 0 t = Some (v, c).
+Proof. exact hno_reduce_normalises. Qed.
+Theorem C14_any_order_sound : forall o fuel t v u c, (o = NOR \/ o = HNO \/ o = APP \/ o = HAP) ->
+  red t v -> nfb v = true -> reduce_m fuel o 0 t = Some (u, c) -> u = v.
+Proof.
+  intros o fuel t v u c Ho R N H.
+  pose proof (reduce_stops_normal _ _ _ _ _ _ H (or_introl eq_refl)) as Nu.
+  rewrite (nf_of_normalising _ Ho) in Nu.
+  apply reduce_steps, steps_star in H.
+  eapply nf_unique; eauto; apply nfb_nf; auto.
+Qed.
+
+(** e.g. HNO on Scott pow and NOR on binary succ, for all arguments *)
+Theorem C14_hno_scott_pow : forall m n, exists fuel c,
+  reduce_m fuel HNO 0 (App (App lc_num_scott_pow (scott m)) (scott n)) = Some (scott (m ^ n), c).
+Proof. intros. apply hno_reduce_normalises; [apply scott_pow|apply scott_nf]. Qed.
+Theorem C14_nor_binary_succ : forall n, exists fuel c,
+  reduce_m fuel NOR 0 (App lc_num_binary_succ (binary n)) = Some (binary (S n), c).
+Proof. intros. apply nor_normalises; [apply binary_succ|apply binary_nf]. Qed.
+
+(** termination under APP / HAP where suitable: bounded grid (numbers <= 5, binary <= 20, multiplications <= 2) *)
 Theorem C14_bounded_grid : forallb (fun b => b) othernum_grid = true.
 Proof. exact othernum_grid_ok. Qed.
-
-Theorem C14_bounded_scott_add : forall o m n, In o [NOR; HNO] -> m <= 3 -> n <= 3 ->
-  exists c, reduce_m FUEL o 0 (App (App lc_num_scott_add (scott m)) (scott n)) = Some (scott (m + n), c).
-Proof.
-  apply (grid2_sound orders_lazy 3 lc_num_scott_add scott (fun m n => scott (m + n))).
-  vm_compute. reflexivity.
-Qed.
 
 Theorem C14_bounded_church_to_scott : forall o n, In o [NOR; HNO; HAP; APP] -> n <= 5 ->
   exists c, reduce_m FUEL o 0 (App lc_num_church_to_scott (church n)) = Some (scott n, c).
 Proof. apply (grid1_sound orders_all 5 lc_num_church_to_scott church scott). vm_compute. reflexivity. Qed.
 
+Print Assumptions C14_scott.
+Print Assumptions C14_parigot.
+Print Assumptions C14_stumpfu.
+Print Assumptions C14_binary.
+Print Assumptions C14_binary_bits.
+Print Assumptions C14_conversions.
+Print Assumptions C14_encodings_normal.
+Print Assumptions C14_nor_returns.
+Print Assumptions C14_hno_returns.
+Print Assumptions C14_any_order_sound.
+Print Assumptions C14_hno_scott_pow.
+Print Assumptions C14_nor_binary_succ.
 Print Assumptions C14_bounded_grid.
-Print Assumptions C14_bounded_scott_add.
 Print Assumptions C14_bounded_church_to_scott.
